@@ -3,6 +3,7 @@
 package syntax
 
 import (
+	"math"
 	"sort"
 	"strconv"
 	"strings"
@@ -276,7 +277,13 @@ func (e *IntExp) String() string {
 
 func (e *FloatExp) format(w stringWriter, _ string) {
 	var buf [68]byte
-	mustWrite(w, strconv.AppendFloat(buf[:0], e.Value, 'g', -1, 64))
+	b := strconv.AppendFloat(buf[:0], e.Value, 'g', -1, 64)
+	if e.Value == 0 && math.Signbit(e.Value) {
+		// Unlike other whole numbers, negative zero is not the value of
+		// any integer literal: -0 would be read back as the integer 0.
+		b = append(b, ".0"...)
+	}
+	mustWrite(w, b)
 }
 
 func (e *FloatExp) GoString() string {
